@@ -78,6 +78,30 @@ NEEDS = {
  "C19-r2m1": ("replication/search.go: timestamp.After(lower) became !timestamp.Before(lower)", "a query time exactly equal to the lower bound state's timestamp"),
  "C19-r2m2": ("changesets.go + search.go: the changeset off-by-one correction moved out of the path the search uses (two sites)", "changeset replication, query in the newest interval or after all states"),
  "C19-r2m3": ("search.go findInRange: loop bound sID >= below and below = split.SeqNum (two edits)", "a run of missing files directly above an existing state with the query inside the hole (endless requests)"),
+ "C04-r2m1": ("osm.go + change.go: root attributes written through a positional helper; Change pre-filters empty values so positions shift", "an osmChange whose set root attributes have a gap (e.g. version and license but no generator)"),
+ "C04-r2m2": ("osmxml/scanner.go: <bounds> decoded into a reused Scanner field and returned by address", "two or more top-level bounds in one stream and a caller that keeps scanned objects"),
+ "C04-r2m3": ("diff.go Action.MarshalXML: old/new written with marshalInnerElementsXML (nodes, ways, relations only)", "a Diff modify/delete action whose Old/New carries Bounds, Changesets, Notes or Users"),
+ "C10-r2m1": ("feature.go: Type.mask() helper covers all 7 kinds and Type.FeatureID trusts mask() != 0 (two sites)", "a real but non-element kind (changeset, note, user, bounds) given to the feature/element parser"),
+ "C10-r2m2": ("object.go/element.go: version parsed with a signed 16-bit ParseInt", "text with a version >= 32768"),
+ "C10-r2m3": ("constructors mask the ref with a 39-bit constant", "a reference >= 2^39 (collisions, wrong order, wrong Ref)"),
+ "C12-r2m1": ("update.go: SortByTimestamp gains an index tie-break and SortByIndex delegates to it after the index compare (two sites): version tie-break lost", "versions of one child sharing a timestamp in a parent with more than 12 updates"),
+ "C12-r2m2": ("annotate/internal/core/compute.go: SortByIndex only when more than one child contributed updates", "exactly one updating child sitting at two or more positions of the parent with >= 2 minor versions"),
+ "C12-r2m3": ("annotate/relation.go: polygon relations with a Reverse update are re-sorted by timestamp only", "annotate.Relations on a multipolygon/boundary relation with a reversed way member and another member's minor version out of index order"),
+ "C13-r2m1": ("annotate/change.go findPreviousWay: scan breaks at the first version >= own", "an unsorted way history with a later/equal version stored before the true predecessor"),
+ "C13-r2m2": ("annotate/change.go: 'no earlier version' folded into a helper returning a typed nil pointer as error (two sites)", "IgnoreMissingChildren(true) plus an existing history without a version below the element's own"),
+ "C13-r2m3": ("annotate/change.go addUpdate: Visible assignment hoisted above the create fallback", "deleted element, previous version missing, IgnoreMissingChildren(true)"),
+ "C14-r2m1": ("annotate/order.go walk: 'seen' set keyed by the bare ref, filled before the type check", "a non-relation member and a relation member with the same numeric id, parent requested before the child"),
+ "C14-r2m2": ("annotate/order.go: out channel buffered to len(ids) and the final select replaced by a plain send (two sites)", "request list smaller than the reachable set and Close/cancel before the iteration is drained (Close deadlocks)"),
+ "C14-r2m3": ("annotate/order.go: relation marked visited on entry", "a cycle not through the first requested relation, the cycle-closing relation requested later"),
+ "C15-r2m1": ("way.go LineStringAt: fast path looks only at the first stored update", "first stored update later than t while a later-stored one is due (index-sorted or shuffled lists)"),
+ "C15-r2m2": ("update.go UpTo sorts its result by time + way.go ApplyUpdatesUpTo applies Updates.UpTo(t) (two sites)", "a shuffled list with one child's later update stored first, or > 12 updates with same-second versions"),
+ "C15-r2m3": ("relation.go ApplyUpdatesUpTo: boundary instant compared with == on time.Time", "t exactly an update's instant but in another zone/representation"),
+ "C18-r2m1": ("polygon.go: len(w.Nodes) <= 3 became < 3", "a closed way with exactly three refs (A-B-A) and area tags"),
+ "C18-r2m2": ("polygon.go: 'no' skip replaced by appending \"no\" to every non-whitelist list after the sort (two sites)", "natural=no, man_made=no, aeroway=no, natural=tree_row, aeroway=taxiway"),
+ "C18-r2m3": ("polygon.go: single pass over the tags in storage order with area handled inline", "area=no together with a qualifying rule key stored before it"),
+ "C20-r2m1": ("osmapi/datasource.go: Client and Limiter both taken from the fallback datasource when Client is nil (two sites)", "a custom Datasource with a Limiter and a nil Client"),
+ "C20-r2m2": ("osmapi/options.go At(): time.RFC3339 in the value's own zone", "At(t) with a non-UTC time"),
+ "C20-r2m3": ("osmapi/way.go Ways: single-id lists delegated to Way", "Ways with exactly one id (wrong path; 0 or >=2 ways in the response become an error)"),
 }
 import re
 PKG_DIR = {"osm_test": ".", "osm": ".", "annotate_test": "annotate", "annotate": "annotate", "osmapi_test": "osmapi", "osmapi": "osmapi",
